@@ -24,65 +24,65 @@ Ex(q) == [kind |-> "exact", lo |-> q, hi |-> q, irr |-> FALSE]
 En(en, irr) == [kind |-> "encl", lo |-> en[1], hi |-> en[2], irr |-> irr]
 Dom == [kind |-> "domain", lo |-> QZero, hi |-> QZero, irr |-> FALSE]
 
-IsIntegerQ(q) == Mod(q.n.m, q.d) = <<>>
+IsIntegerQ(q) == FDivMod(q.n.m, q.d)[2] = <<>>
 \* integer exponents of powf that are cheap to evaluate exactly: |y| <= 64, total size bounded
+NativeOfIntQ(q) == Let(ToNat(FDivFloor(q.n.m, q.d)), LAMBDA m : IF q.n.s = 1 THEN -m ELSE m)
 SmallIntPower(xq, yq) ==
+  /\ FQLe(QAbs(yq), Q(IFromNative(64), One))
   /\ IsIntegerQ(yq)
-  /\ QLe(QAbs(yq), Q(IFromNative(64), One))
-  /\ (Len(xq.n.m) + Len(xq.d)) * ToNat(Div(yq.n.m, yq.d)) <= 600
-NativeOfIntQ(q) == LET m == ToNat(Div(q.n.m, q.d)) IN IF q.n.s = 1 THEN -m ELSE m
+  /\ (Len(xq.n.m) + Len(xq.d)) * ToNat(FDivFloor(yq.n.m, yq.d)) <= 600
+ShiftEn(en, c, irr) == En(<<FQSub(en[1], c), FQSub(en[2], c)>>, irr)
 
 \* xq, yq: rational arguments; n: native exponent of powi; nb: working bytes of the enclosure
 Truth(op, xq, yq, n, nb) ==
   CASE op = "exp" ->
          IF QIsZero(xq) THEN Ex(QOne) ELSE En(ExpEncl(xq, xq, nb), TRUE)
     [] op = "exp_m1" ->
-         IF QIsZero(xq) THEN Ex(QZero)
-         ELSE LET en == ExpEncl(xq, xq, nb) IN En(<<QSub(en[1], QOne), QSub(en[2], QOne)>>, TRUE)
+         IF QIsZero(xq) THEN Ex(QZero) ELSE ShiftEn(ExpEncl(xq, xq, nb), QOne, TRUE)
     [] op = "ln" ->
          IF QSign(xq) <= 0 THEN Dom
-         ELSE IF QEq(xq, QOne) THEN Ex(QZero) ELSE En(LnEncl(xq, nb), TRUE)
+         ELSE IF FQCmp(xq, QOne) = 0 THEN Ex(QZero) ELSE En(LnEncl(xq, nb), TRUE)
     [] op = "ln_1p" ->
-         LET x1 == QAdd(xq, QOne) IN
-         IF QSign(x1) <= 0 THEN Dom
-         ELSE IF QIsZero(xq) THEN Ex(QZero) ELSE En(LnEncl(x1, nb), TRUE)
+         IF QSign(FQAdd(xq, QOne)) <= 0 THEN Dom
+         ELSE IF QIsZero(xq) THEN Ex(QZero) ELSE En(LnEncl(FQAdd(xq, QOne), nb), TRUE)
     [] op = "powi" ->
          IF QIsZero(xq) /\ n < 0 THEN Dom ELSE Ex(QPowInt(xq, n))
     [] op = "powf" ->
          IF QSign(xq) < 0 THEN Dom
          ELSE IF QIsZero(yq) THEN Ex(QOne)
          ELSE IF QIsZero(xq) THEN (IF QSign(yq) > 0 THEN Ex(QZero) ELSE Dom)
-         ELSE IF QEq(xq, QOne) THEN Ex(QOne)
-         ELSE IF QEq(yq, QOne) THEN Ex(xq)
+         ELSE IF FQCmp(xq, QOne) = 0 THEN Ex(QOne)
+         ELSE IF FQCmp(yq, QOne) = 0 THEN Ex(xq)
          ELSE IF SmallIntPower(xq, yq) THEN Ex(QPowInt(xq, NativeOfIntQ(yq)))
          ELSE En(PowEncl(xq, yq, nb), FALSE)
 
 (* Judgement of one outcome o against the truth T, for base B and precision p:
      ""   the property holds for this outcome
-     "U"  not decidable from this enclosure (the caller retries with a tighter one)
-     else the violated clause.
+     "U"  not decidable from this enclosure (the caller retries with a tighter one; `last` says
+          there is no tighter one, then whatever *is* decided is reported)
+     else the violated clause: the accuracy clause first (with the bracket of the error), then the
+          Exact-flag clause.
    o = [k |-> "ok", v |-> [v |-> float, flag |-> string]] | [k |-> "panic", ...] | [k |-> "timeout"] *)
-Judge(B, p, o, T) ==
+JudgeD(ef, T, r, d, last) ==
+  IF d.v = "FAILS" THEN d.cls
+  ELSE IF d.v = "UNDECIDED" /\ ~last THEN "U"
+  ELSE IF ef /\ (T.irr \/ ~(FQLe(T.lo, r) /\ FQLe(r, T.hi))) THEN "exact-flag-untruthful"
+  ELSE IF d.v = "UNDECIDED" THEN "U"
+  \* a real power that may be rational: equality with r is not decidable by intervals
+  ELSE IF ef /\ T.kind = "encl" THEN "U"
+  ELSE ""
+JudgeR(B, p, ef, T, r, last) == JudgeD(ef, T, r, Decide3(B, p, r, T.lo, T.hi), last)
+Judge(B, p, o, T, last) ==
   IF T.kind = "domain" THEN ""
   ELSE IF o.k = "timeout" THEN "no-result-timeout"
   ELSE IF p = 0 THEN
     (IF o.k = "panic" THEN ""
-     ELSE IF T.kind = "exact" /\ o.v.v.inf = 0 /\ IsInt(o.v.v.sig) /\ QEq(FVal(B, o.v.v), T.lo) THEN ""
+     ELSE IF T.kind = "exact" /\ o.v.v.inf = 0 /\ IsInt(o.v.v.sig) /\ FQCmp(FFVal(B, o.v.v), T.lo) = 0 THEN ""
      ELSE "unlimited-precision-not-refused")
   ELSE IF o.k = "panic" THEN "unexpected-panic"
   ELSE IF o.v.v.inf # 0 THEN "not-finite"
   ELSE IF ~IsInt(o.v.v.sig) THEN "malformed-significand"
-  ELSE
-  LET r == FVal(B, o.v.v)
-      exactFlag == o.v.flag = "Exact"
-      inside == QLe(T.lo, r) /\ QLe(r, T.hi)
-  IN IF exactFlag /\ (T.irr \/ ~inside) THEN "exact-flag-untruthful"
-     ELSE LET d == Decide3(B, p, r, T.lo, T.hi) IN
-          IF d.v = "FAILS" THEN d.cls
-          ELSE IF d.v = "UNDECIDED" THEN "U"
-          \* a real power that may be rational: equality with r is not decidable by intervals
-          ELSE IF exactFlag /\ T.kind = "encl" THEN "U"
-          ELSE ""
+  ELSE JudgeR(B, p, o.v.flag = "Exact", T, FFVal(B, o.v.v), last)
 
 \* working bytes of the first enclosure: the digits of the result plus five guard bytes
 BitsPerDigit(B) == IF B <= 2 THEN 1 ELSE IF B <= 4 THEN 2 ELSE IF B <= 8 THEN 3 ELSE IF B <= 16 THEN 4
